@@ -524,7 +524,7 @@ impl CMach {
                     }
                 }
                 Order { order, .. } => {
-                    if order.iter().any(|&v| v >= n) || self.kind == Kind::Zbdd {
+                    if order.iter().any(|&v| v >= n) {
                         return;
                     }
                     let mut seen = 0u64;
@@ -537,6 +537,9 @@ impl CMach {
                     let used = (api.ninner)(m);
                     if self.low_capacity(2 * used + 2 * n as usize + 8) {
                         return;
+                    }
+                    if self.kind == Kind::Zbdd && (used > n as usize || self.regs.iter().any(|r| r.is_some())) && self.low_capacity(4096) {
+                        return; // see histsim: running out of nodes inside a reordering aborts (F08)
                     }
                     (api.order)(m, order.as_ptr(), order.len());
                     let observed: Vec<u32> = (0..n).map(|l| (api.l2v)(m, l)).collect();
